@@ -4,6 +4,7 @@ import (
 	"fmt"
 	"go/ast"
 	"go/types"
+	"regexp"
 	"sort"
 	"strings"
 )
@@ -187,21 +188,32 @@ func ruleRegistryCoUpdate(c *Ctx) {
 		c.bad("sites", 0, "expected functions inserting into, deleting from and clearing Server.hooks (found %d/%d/%d)", len(inserters), len(deleters), len(clearers))
 	}
 	// guard agreement between insert and delete of the spatial indexes, per function pair
-	guardSet := func(ops []regOp, reg, op string, hookVar string) []string {
-		var out []string
+	// foreign[site] records guards of an index update that do not mention the hook being inserted/deleted
+	type gsite struct {
+		guard   string
+		pos     ast.Node
+		foreign []string
+	}
+	mentions := func(x, v string) bool {
+		return regexp.MustCompile(`(^|[^A-Za-z0-9_.])` + regexp.QuoteMeta(v) + `($|[^A-Za-z0-9_])`).MatchString(x)
+	}
+	guardSites := func(ops []regOp, reg, op string, hookVar string) []gsite {
+		var out []gsite
+		re := regexp.MustCompile(`(^|[^A-Za-z0-9_.])` + regexp.QuoteMeta(hookVar) + `($|[^A-Za-z0-9_])`)
 		for _, o := range ops {
-			if o.reg == reg && o.op == op && strings.Contains(o.args, hookVar) {
-				var g []string
+			if o.reg == reg && o.op == op && mentions(o.args, hookVar) {
+				var g, foreign []string
 				for _, x := range o.guards {
-					if strings.Contains(x, hookVar+".") || strings.Contains(x, hookVar+" ") {
-						g = append(g, strings.ReplaceAll(x, hookVar, "$"))
+					if mentions(x, hookVar) {
+						g = append(g, re.ReplaceAllString(x, "${1}$$${2}"))
+					} else if strings.Contains(x, "Fence") || strings.Contains(x, "detect") {
+						foreign = append(foreign, x)
 					}
 				}
 				sort.Strings(g)
-				out = append(out, strings.Join(g, " && "))
+				out = append(out, gsite{strings.Join(g, " && "), o.pos, foreign})
 			}
 		}
-		sort.Strings(out)
 		return out
 	}
 	// the hook variable is the last argument of the Insert/Delete call
@@ -216,32 +228,41 @@ func ruleRegistryCoUpdate(c *Ctx) {
 		return vs
 	}
 	for _, reg := range []string{"hookTree", "hookCross"} {
-		var insG, delG [][]string
+		var insG, delG []gsite
 		for _, s := range inserters {
 			for _, hv := range lastArg(s.ops, reg, "Insert") {
-				insG = append(insG, guardSet(s.ops, reg, "Insert", hv))
+				insG = append(insG, guardSites(s.ops, reg, "Insert", hv)...)
 			}
 		}
 		for _, s := range append(append([]site{}, deleters...), inserters...) {
 			for _, hv := range lastArg(s.ops, reg, "Delete") {
-				delG = append(delG, guardSet(s.ops, reg, "Delete", hv))
+				delG = append(delG, guardSites(s.ops, reg, "Delete", hv)...)
 			}
 		}
-		ok := len(insG) > 0 && len(delG) > 0
-		strip := func(g []string) string {
+		strip := func(g string) string {
 			// the nil test of the hook itself ($ != nil) is not part of the indexing predicate
-			s := strings.Join(g, " | ")
-			s = strings.ReplaceAll(s, "$ != nil && ", "")
-			return s
-		}
-		for _, d := range delG {
-			if strip(d) != strip(insG[0]) {
-				ok = false
-			}
+			return strings.ReplaceAll(g, "$ != nil && ", "")
 		}
 		n++
-		c.check(ok, "guards-agree/"+reg, 0, fmt.Sprintf("%s is inserted and deleted under the same predicate on the respective hook: %s", reg, strip(insG[0])),
-			fmt.Sprintf("%s is inserted under {%v} but deleted under {%v}: entries are left behind or never removed", reg, insG, delG))
+		if len(insG) == 0 || len(delG) == 0 {
+			c.bad("guards-agree/"+reg, 0, "%s: expected insert and delete sites, found %d/%d", reg, len(insG), len(delG))
+			continue
+		}
+		ok := true
+		for _, d := range append(append([]gsite{}, delG...), insG[1:]...) {
+			if strip(d.guard) != strip(insG[0].guard) || len(d.foreign) > 0 {
+				ok = false
+				extra := ""
+				if len(d.foreign) > 0 {
+					extra = fmt.Sprintf("; the update is additionally guarded by a test on a different hook (%s)", strings.Join(d.foreign, " && "))
+				}
+				c.bad("guards-agree/"+reg, d.pos.Pos(), "%s is inserted under {%s} of the inserted hook, but this update of the index runs under {%s} of the hook it handles%s: entries are left behind or never removed", reg, strip(insG[0].guard), strip(d.guard), extra)
+				break
+			}
+		}
+		if ok {
+			c.ok("guards-agree/"+reg, insG[0].pos.Pos(), true, "%s is inserted and deleted under the same predicate on the respective hook: %s (%d sites)", reg, strip(insG[0].guard), len(insG)+len(delG))
+		}
 	}
 	c.stat("registry_update_sites", n)
 }
